@@ -20,6 +20,9 @@ pub struct AllocPlan {
     pub keep: usize,
     pub kinds: Vec<usize>,
     pub retained_kind: usize,
+    /// objects of a large structure built and dropped before the loop (0: none): the live set
+    /// shrinks sharply, and the heap bound has to follow it down
+    pub burst: usize,
 }
 
 pub const KINDS: usize = 12;
@@ -39,7 +42,8 @@ pub fn plan(data: &[u8], max_iter: usize, max_keep: usize) -> AllocPlan {
         kinds.push(rd.below(KINDS));
     }
     let retained_kind = rd.below(6);
-    AllocPlan { iterations, keep, kinds, retained_kind }
+    let burst = if rd.chance(1, 3) { 500 + rd.below(6000) } else { 0 };
+    AllocPlan { iterations, keep, kinds, retained_kind, burst }
 }
 
 fn lam(name: &str, params: &[&str], body: Expr) -> Expr {
@@ -171,6 +175,17 @@ pub fn program(p: &AllocPlan, iterations: usize) -> Program {
             Expr::range(n(0.0), n(p.keep as f64)),
             vec![Stmt::expr(Expr::invoke(v("keep"), "push", vec![Expr::Nil]))],
         )));
+    }
+    if p.burst > 0 {
+        // build a large structure, then drop it
+        main.push(Stmt::var("big", Some(Expr::VecLit(vec![]))));
+        main.push(Stmt::new(StmtKind::For(
+            "b".into(),
+            Expr::range(n(0.0), n(p.burst as f64)),
+            vec![Stmt::expr(Expr::invoke(v("big"), "push", vec![Expr::VecLit(vec![v("b"), Expr::str("x")])]))],
+        )));
+        main.push(Stmt::print(Expr::invoke(v("big"), "len", vec![])));
+        main.push(Stmt::expr(Expr::assign_var("big", Expr::Nil)));
     }
     let mut body: Vec<Stmt> = Vec::new();
     for k in &p.kinds {
